@@ -19,7 +19,7 @@ BAD_REPLIES = {
 
 def behaviour(rng, k):
     """-> (fakegen name, reply bytes or None, model behaviour token, files this generator means to write [(path, content)])"""
-    kind = rng.choice(["ok0", "okfiles", "okfiles", "missing", "notexec", "exit1", "exit255", "sigkill", "sigsegv", "stderr", "noread", "empty", "replyexit1", "replysigkill", "truncated", "truncated", "truncated-after-files", "bad", "bad-after-files"])
+    kind = rng.choice(["ok0", "okfiles", "okfiles", "missing", "notexec", "exit1", "exit255", "sigkill", "sigsegv", "stderr", "bigstderr", "bigout", "bigboth", "noread", "empty", "replyexit1", "replysigkill", "truncated", "truncated", "truncated-after-files", "bad", "bad-after-files"])
     files = [("g%d_%d.txt" % (k, j), "content of %d/%d\n" % (k, j) * rng.choice([1, 3])) for j in range(rng.choice([1, 2, 3]))]
     if rng.random() < 0.2:
         files.append(("sub%d/nested.txt" % k, "needs a directory that does not exist"))
@@ -34,8 +34,12 @@ def behaviour(rng, k):
         return "gen-%s-%d" % (kind, k), None, "run:1:0:%s:-" % kind[4:], kind
     if kind in ("sigkill", "sigsegv"):
         return "gen-%s-%d" % (kind, k), None, "run:1:0:sig:-", kind
-    if kind == "stderr":
-        return "gen-stderr-%d" % k, None, "run:1:1:0:0000", kind
+    if kind in ("stderr", "bigstderr", "bigboth"):
+        # something on stderr, however much, and a complete reply: a failure of that generator
+        return "gen-%s-%d" % (kind, k), None, "run:1:1:0:0000", kind
+    if kind == "bigout":
+        # a complete (empty) reply followed by a megabyte that is not looked at
+        return "gen-bigout-%d" % k, None, "run:1:0:0:0000", kind
     if kind in ("noread", "empty"):
         return "gen-%s-%d" % (kind, k), None, "run:1:0:0:-", kind
     if kind == "replyexit1":
@@ -81,7 +85,7 @@ def run(ck):
         gens, fs, kinds = [], {}, []
         for k in range(ng):
             name, reply, mtok, kind = behaviour(rng, k)
-            gens.append((name, rng.choice([None, "k=v", "a=b,c=d"]), reply if reply else None, mtok))
+            gens.append((name, rng.choice([None, "k=v", "a=b,c=d", "k=v,k=v", "a=1,b=2,a=1", "x=,x=,y=x", "k=v,k=w,k=v,k=v"]), reply if reply else None, mtok))
             kinds.append(kind)
         # what the file system will answer for every file of every decodable reply
         mraw = core.run_model("main", ["main - 0 G %s FS" % " ".join(g[3] for g in gens)])[0]
@@ -129,7 +133,7 @@ def run(ck):
     o = dc.run_all(rlines)
     m = core.run_model("main", mlines)
     ck.stream("generators", description="the real slicec binary with 1..3 fake generators, each drawn from the behaviour catalogue {ok with 0..n files (also into a missing sub-directory), missing executable, not executable, "
-              "exit 1/255, killed by SIGKILL/SIGSEGV (also after writing a complete reply), stderr output with exit 0, exits without reading stdin, empty reply, valid reply but exit 1, reply truncated at a random byte or right after the file sequence, complete files followed by undecodable diagnostics, "
+              "exit 1/255, killed by SIGKILL/SIGSEGV (also after writing a complete reply), stderr output with exit 0 (a line, or a megabyte on stderr, on stdout, or on both), exits without reading stdin, empty reply, valid reply but exit 1, reply truncated at a random byte or right after the file sequence, complete files followed by undecodable diagnostics, "
               "8 undecodable replies (invalid UTF-8/bool/level, huge sizes, missing tag end, garbage)} x output directory {absent, given, missing} x pre-existing files {identical, different}. "
               "Compared with the driver model: every startable generator started exactly once with the same request, exit status, one error naming each failing generator, exactly the model's files written below the "
               "output directory with the reply's contents, identical files left untouched, nothing written for failing generators.")
@@ -158,7 +162,12 @@ def run(ck):
             elif inv != 1:
                 ck.violation("generators", "generator-not-started-once", case, "%s started exactly once, whatever the others do" % name, "invoked %d times" % inv)
             elif kind != "noread" and sin != "none":
-                requests.add(sin[:len(common_request(sin, args))])
+                cr = common_request(sin, args)
+                if cr.endswith("?"):
+                    ck.violation("generators", "own-arguments-changed", case, "%s reads the request followed by its own arguments %r" % (name, args), "its input ends with ...%s" % sin[-80:],
+                                 signature={"args": args or "-"})
+                else:
+                    requests.add(cr)
         if len(requests) > 1:
             ck.violation("generators", "requests-differ", case, "the identical request for every generator", "%d different requests" % len(requests))
         # errors: one per failing generator, naming it; one per file that could not be written
